@@ -273,13 +273,17 @@ impl Subscriber for StrictHost {
 
 
 /// Stands in for "no subscriber installed yet": answers like `NoSubscriber` (never interested,
-/// nothing enabled, placeholder ids) but numbers the metadata objects it is asked to register, so
-/// that the harness's metadata indices stay in the arena's allocation order.
-pub struct NoHostYet;
+/// nothing enabled, placeholder ids) but remembers the metadata objects it is asked to register, so
+/// that the harness can number them in a run-independent order afterwards.
+#[derive(Default, Clone)]
+pub struct NoHostYet {
+    /// metadata objects it was asked to register, in the order of the calls
+    pub seen: std::sync::Arc<Mutex<Vec<&'static Metadata<'static>>>>,
+}
 
 impl tracing_core::Subscriber for NoHostYet {
     fn register_callsite(&self, metadata: &'static Metadata<'static>) -> Interest {
-        let _ = meta_index(metadata);
+        self.seen.lock().unwrap().push(metadata);
         Interest::never()
     }
     fn enabled(&self, _metadata: &Metadata<'_>) -> bool {
